@@ -29,10 +29,11 @@ Proof.
   intros [n1 d1] [n2 d2]. unfold ratio_normb, ratio_eqb. cbn [fst snd]. intros G1 G2 E.
   apply Z.eqb_eq in G1, G2, E.
   assert (D12 : (Zpos d1 | Zpos d2)).
-  { apply Z.gauss with n1. - exists n2. lia. - rewrite Z.gcd_comm. exact G1. }
+  { apply Z.gauss with n1. - exists n2. exact E. - rewrite Z.gcd_comm. exact G1. }
   assert (D21 : (Zpos d2 | Zpos d1)).
-  { apply Z.gauss with n2. - exists n1. lia. - rewrite Z.gcd_comm. exact G2. }
-  assert (Hd : Zpos d1 = Zpos d2) by (apply Z.divide_antisym_nonneg; lia).
+  { apply Z.gauss with n2. - exists n1. symmetry; exact E. - rewrite Z.gcd_comm. exact G2. }
+  clear G1 G2.
+  assert (Hd : Zpos d1 = Zpos d2) by (apply Z.divide_antisym_nonneg; [lia|lia|assumption|assumption]).
   assert (d1 = d2) by congruence. subst d2.
   f_equal. apply Z.mul_cancel_r with (Zpos d1); lia.
 Qed.
@@ -201,7 +202,7 @@ Proof.
 Qed.
 Lemma emit_all_ok : forall l cs u cs', emit_all l cs = Some (u, cs') -> cstep cs cs' l.
 Proof.
-  induction l as [|i l IH]; intros cs u cs' H; cbn in H.
+  induction l as [|i l IH]; intros cs u cs' H; cbn [emit_all] in H.
   - apply cret_inv in H as [_ ->]. apply cstep_refl.
   - apply cbind_inv in H as (a & cs1 & H1 & H2). apply emit_ok in H1. apply IH in H2.
     apply (cstep_trans _ _ _ _ _ H1 H2).
